@@ -2,5 +2,6 @@ SPECIFICATION Spec
 CONSTANTS
   MaxWrites = 40
   Statuses = {0, 1, 2, 129}
-INVARIANTS Total QuitIsQuiet Replay
+  WriteFaultAt = {1, 2, 3, 7}
+INVARIANTS Total QuitIsQuiet NoQuitNoLoss Replay
 CHECK_DEADLOCK FALSE
